@@ -2,11 +2,14 @@
 Helper lemmas for C10: which constraints `genCons` contains, clamping, tolerances.
 -/
 import AdaptaVerif.Model.Nudge
+import AdaptaVerif.Spec.Nudge
+import AdaptaVerif.Lemmas.PinsAttach
+import Mathlib.Tactic.FieldSimp
 import Mathlib.Tactic.Linarith
 import Mathlib.Tactic.Ring
 import Mathlib.Algebra.Order.Field.Rat
 namespace AdaptaVerif.Lemmas.Nudge
-open AdaptaVerif.Model.Nudge
+open AdaptaVerif.Model.Nudge AdaptaVerif.Spec.Nudge
 
 /-- `prev` lists every earlier segment with its index -/
 def Covers (prev : List (Nat × Seg)) (pre : List Seg) : Prop :=
@@ -214,5 +217,28 @@ theorem clamp_close (s : Seg) (v t : Rat) (ht : 0 ≤ t)
       · intro l' hl'; cases hl'
         exact le_min (le_max_right _ _) h3
       · intro u' hu'; cases hu'; exact min_le_right _ _
+
+theorem gapFor_full (p : Params) (a b : Seg) (h : FullGap p a b) : gapFor p a b = (p.sepDist, false) := by
+  obtain ⟨hne, hce⟩ := h
+  unfold gapFor
+  simp only [hne, if_false]
+  split_ifs with h1
+  · exfalso; apply hce
+    simp only [Bool.and_eq_true, Bool.not_eq_true'] at h1
+    exact h1
+  · rfl
+
+/-- a point of the 1-D interval between `a` and `b`, written as a convex combination -/
+theorem between_param (a b v : Rat) (h1 : min a b ≤ v) (h2 : v ≤ max a b) :
+    ∃ t : Rat, 0 ≤ t ∧ t ≤ 1 ∧ v = a + t * (b - a) := by
+  by_cases hab : a = b
+  · subst hab
+    rw [min_self] at h1; rw [max_self] at h2
+    exact ⟨0, le_refl 0, by norm_num, by linarith⟩
+  · obtain ⟨t0, t1⟩ := AdaptaVerif.Lemmas.PinsAttach.param_of_between a b v hab h1 h2
+    refine ⟨(v - a) / (b - a), t0, t1, ?_⟩
+    have hne : b - a ≠ 0 := sub_ne_zero.mpr (Ne.symm hab)
+    field_simp
+    ring
 
 end AdaptaVerif.Lemmas.Nudge
